@@ -454,6 +454,9 @@ Proof.
      destruct (Nat.eqb_spec s' s) as [E|E]; simpl in H; [|discriminate]; subst s';
      match type of H with
      | (if ?c then _ else _) = _ => destruct c; [discriminate|]
+     end;
+     match type of H with
+     | (if ?c then _ else _) = _ => destruct c; [discriminate|]
      end; inversion H; subst; simpl; auto).
 Qed.
 
